@@ -64,7 +64,96 @@ def gen_cases(rng, tier, drift):
             cfg["stateful"], cfg["rewind"], cfg["eager"] = False, False, False
         cases.append(dict(kind="free", cfg=cfg, in_order=(i % 2 == 0), epochs=3,
                           abandon=[rng.choice([None, None, rng.randint(0, 3)]) for _ in range(3)]))
+    for i in range(20 if tier == "quick" and not drift else 200):
+        # call scripts with a user sampler whose order depends on set_epoch(), iter() calls that are never advanced (a warm-up), a
+        # transient dataset error (raised once per process for one index) after which the epoch is simply run again: the same calls
+        # on torch's DataLoader give the stream to expect
+        n, bs = rng.randint(4, 12), rng.choice([1, 2, 3])
+        W = rng.choice([0, 2, 2, 3])
+        N = lambda: rng.randint(0, 3)
+        script = rng.choice([
+            [["set_epoch", N()], ["iter"], ["set_epoch", 4 + N()], ["epoch"], ["epoch"]],
+            [["epoch"], ["epoch"], ["set_epoch", 1 + N()], ["epoch"]],
+            [["iter"], ["iter"], ["take", 1], ["iter"], ["epoch"]],
+            [["take", N()], ["set_epoch", 1 + N()], ["iter"], ["set_epoch", 5 + N()], ["epoch"]],
+            [rng.choice([["iter"], ["epoch"], ["take", N()], ["set_epoch", N()]]) for _ in range(rng.randint(3, 6))] + [["epoch"]],
+            # state_dict() calls (nothing is ever loaded): before the first iter(), between epochs, part-way; torch's loader skips them
+            [["state"], ["take", 1 + N()], ["epoch"], ["epoch"]],
+            [["set_epoch", N()], ["state"], ["state"], ["epoch"], ["take", N()], ["state"], ["epoch"]],
+            [["epoch"], ["state"], ["take", 1], ["state"], ["epoch"]],
+        ])
+        cases.append(dict(kind="script", cfg=dict(kind="map", n=n, bs=bs, W=W, P=rng.choice([1, 2]), I=rng.choice([0, 1, 1, 2]),
+                                                  persistent=W > 0 and rng.random() < 0.7, drop=rng.random() < 0.3,
+                                                  terr=rng.choice([None, None, rng.randrange(min(n, bs)), rng.randrange(n)])),
+                          script=[list(o) for o in script]))
     return cases
+
+
+class EpochSampler:
+    """a user sampler with a deterministic order that depends on the epoch it was told"""
+
+    def __init__(self, n):
+        self.n, self.epoch = n, 0
+
+    def set_epoch(self, e):
+        self.epoch = e
+
+    def __iter__(self):
+        return iter([(i * (1 if self.n % 2 == 0 else 2) + 3 * self.epoch) % self.n for i in range(self.n)]
+                    if self.epoch % 2 else [(self.n - 1 - i + self.epoch) % self.n for i in range(self.n)])
+
+    def __len__(self):
+        return self.n
+
+
+class TransientDS:
+    """index `bad` fails the first time the process that holds this copy reads it"""
+
+    def __init__(self, n, bad):
+        self.n, self.bad, self.seen = n, bad, False
+
+    def __len__(self):
+        return self.n
+
+    def __getitem__(self, i):
+        if i == self.bad and not self.seen:
+            self.seen = True
+            raise OSError(f"transient read error at index {i}")
+        return i
+
+
+def run_script(cfg, script, cls):
+    kw = dict(batch_size=cfg["bs"], num_workers=cfg["W"], collate_fn=si.identity, drop_last=cfg["drop"])
+    if cfg["W"] > 0:
+        kw.update(prefetch_factor=cfg["P"], persistent_workers=cfg["persistent"])
+    if cls.__name__ == "StatefulDataLoader":
+        kw["snapshot_every_n_steps"] = cfg["I"]
+    sp = EpochSampler(cfg["n"])
+    dl = cls(TransientDS(cfg["n"], cfg["terr"]), sampler=sp, **kw)
+    out = []
+    for op in script:
+        if op[0] == "set_epoch":
+            sp.set_epoch(op[1])
+        elif op[0] == "iter":
+            iter(dl)
+        elif op[0] == "state":
+            if hasattr(dl, "state_dict"):
+                dl.state_dict()
+        else:
+            got, lim = [], (op[1] if op[0] == "take" else None)
+            try:
+                if lim != 0:
+                    for x in dl:
+                        got.append(si.norm_batch(x))
+                        if lim is not None and len(got) >= lim:
+                            break
+                else:
+                    iter(dl)
+            except OSError as e:
+                got.append(("error", str(e).strip().splitlines()[-1][-40:]))
+            out.append(got)
+    del dl
+    return out
 
 
 def distribution(cases):
@@ -93,6 +182,14 @@ def run_impl(c):
                 fails.append(f"epoch {got} != torch DataLoader {t}")
             return dict(obs=obs, used=used, oracle="; ".join(fails) or None,
                         nontrivial=len(ref) >= 2 and (cfg["W"] >= 2), key=[cfg, used])
+        if c["kind"] == "script":
+            from torchdata.stateful_dataloader import StatefulDataLoader
+            a = run_script(cfg, c["script"], StatefulDataLoader)
+            si.kill_children()
+            b = run_script(cfg, c["script"], tud.DataLoader)
+            if a != b:
+                fails.append(f"script {c['script']}: StatefulDataLoader gave {a}, torch DataLoader {b}")
+            return dict(oracle="; ".join(fails) or None, nontrivial=len(c["script"]) >= 3, key=[cfg, c["script"]])
         # free-running: several epochs, vs torch
         sdl = si.make_loader(cfg, in_order=c["in_order"]) if cfg["W"] > 0 else si.make_loader(cfg)
         tdl = si.make_loader(cfg, cls=tud.DataLoader)
